@@ -348,9 +348,11 @@ struct PrefixSpace {
       return {};
    }
 };
-/// every token of every data line x replacement kind x force_output on/off
+/// every token of every line x replacement kind x force_output on/off; for block definition lines
+/// additionally the same replacements glued to the preceding token ("Q= 1.0E+03" -> "Q=<replacement>")
 struct TokenSpace {
-   struct Seg { size_t file; std::vector<std::pair<size_t, size_t>> toks; size_t n; }; // (line ordinal among token lines, field)
+   struct Tok { size_t ord2; size_t ord; size_t field; bool glue; }; // ord: line ordinal among lines with tokens; ord2: among lines with >= 2 tokens
+   struct Seg { size_t file; std::vector<Tok> toks; size_t n; };
    std::vector<Seg> segs; size_t total = 0;
    void build(bool quick)
    {
@@ -358,12 +360,16 @@ struct TokenSpace {
          const auto& cf = g_corpus.files[f];
          if (quick && cf.rel.find("/input/example.") == std::string::npos) continue;
          Seg s; s.file = f;
-         size_t ord = 0;
+         size_t ord = 0, ord2 = 0;
          for (size_t b : line_starts(cf.bytes)) {
             auto tk = tokens_of(cf.bytes, b, line_end(cf.bytes, b));
             if (tk.empty()) continue;
-            for (size_t k = 0; k < tk.size(); ++k) s.toks.push_back({ord, k});
+            for (size_t k = 0; k < tk.size(); ++k) s.toks.push_back({ord2, ord, k, false});
+            const std::string first = cf.bytes.substr(tk[0].first, tk[0].second - tk[0].first);
+            if (tk.size() >= 2 && (ieq(first, "block") || ieq(first, "decay")))
+               for (size_t k = 1; k < tk.size(); ++k) s.toks.push_back({ord2, ord, k, true});
             ++ord;
+            if (tk.size() >= 2) ++ord2;
          }
          s.n = s.toks.size() * N_REPL_ENUM * 2;
          total += s.n; segs.push_back(s);
@@ -374,8 +380,10 @@ struct TokenSpace {
       for (auto& s : segs) {
          if (idx < s.n) {
             const size_t force = idx & 1, kind = (idx >> 1) % N_REPL_ENUM, tk = (idx >> 1) / N_REPL_ENUM;
+            const Tok& t = s.toks[tk];
             std::vector<std::string> p = {"base corpus " + g_corpus.files[s.file].rel,
-                                          "tok " + std::to_string(s.toks[tk].first) + " " + std::to_string(s.toks[tk].second) + " " + std::to_string(kind)};
+                                          t.glue ? "tokglue " + std::to_string(t.ord2) + " " + std::to_string(t.field - 1) + " " + std::to_string(kind)
+                                                 : "tok " + std::to_string(t.ord) + " " + std::to_string(t.field) + " " + std::to_string(kind)};
             if (force) p.push_back("cfgkey 3 1");
             return p;
          }
